@@ -87,6 +87,9 @@ def run_worker(mod, tier: str, seed: int, shard: int, nshards: int, out: Path) -
         res["n"] += 1
         if r.get("sig") is not None:
             res["sigs"].add(sig_hash(r["sig"]))
+        # batches: a case may stand for many distinct sub-cases, given as a list of hashes (or sigs)
+        for sg in r.get("sigs") or []:
+            res["sigs"].add(sg if isinstance(sg, str) and len(sg) == 16 else sig_hash(sg))
         for k, v in (r.get("obs") or {}).items():
             res["obs"][k] += v
         for k, vals in (r.get("keys") or {}).items():
